@@ -263,14 +263,21 @@ func (ic *Credential) NonrevBuildProofBuilder() (*NonRevocationProofBuilder, err
 	if ic.NonRevocationWitness == nil {
 		return nil, errors.New("credential has no nonrevocation witness")
 	}
+	// a credential that was stored and loaded again carries no cached accumulator: verify and unmarshal it first
+	if ic.NonRevocationWitness.SignedAccumulator == nil {
+		return nil, errors.New("nonrevocation witness has no signed accumulator")
+	}
+	acc, err := ic.NonRevocationWitness.SignedAccumulator.UnmarshalVerify(ic.Pk)
+	if err != nil {
+		return nil, err
+	}
 	b := &NonRevocationProofBuilder{
 		pk:         ic.Pk,
 		witness:    ic.NonRevocationWitness,
-		index:      ic.NonRevocationWitness.SignedAccumulator.Accumulator.Index,
+		index:      acc.Index,
 		randomizer: revocation.NewProofRandomizer(),
 	}
-	_, err := b.Commit()
-	if err != nil {
+	if _, err = b.Commit(); err != nil {
 		return nil, err
 	}
 	return b, nil
